@@ -877,6 +877,7 @@ def run(ctx: common.Ctx):
                 beyond = got is not None and pathlib.PurePosixPath(got).stem in by_name and \
                     pathlib.PurePosixPath(got).stem not in [c.__name__ for c in chain_to_any(type(v))]
                 ctx.fail({"kind": "chain-passes-any", "stem": pathlib.PurePosixPath(got).stem} if beyond else
+                         {"kind": "stray-file-taken-as-template"} if got is not None and pathlib.PurePosixPath(got).stem not in by_name else
                          {"kind": "not-nearest-class", "via": "filter_type_to_template"},
                          f"filter_type_to_template({type(v).__name__} object) gave {got}, nearest class with a template is {exp}",
                          {"stream": "generator", "variant": variant, "user_stems": sorted(ustems), "builtin_stems": sorted(bstems), "object": type(v).__name__, "result": got})
